@@ -190,6 +190,9 @@ def motion_notify_rule(ctx, cg=None):
 
 
 def run(ctx):
+    from . import e2e_rules as _e2e
+
+    ctx.attempt(_e2e.history_rule, ctx, 'R14.E1')
     ctx.attempt(history_state_reset_rule, ctx)
     ctx.attempt(live_embedding_rule, ctx)
     ctx.attempt(model_event_rule, ctx)
